@@ -58,3 +58,26 @@ def replay_roundtrip(inp):
         if why:
             return {"violates": True, "detail": why}
     return {"violates": False}
+
+
+def decodes_are_independent(inp):
+    """two decodes in one process: a block with extended attributes, then a block without: the second object has none"""
+    from paramiko.message import Message
+    from paramiko.sftp_attr import SFTPAttributes
+    bad = []
+    a = SFTPAttributes()
+    a.st_size = 7
+    a.attr["user.comment@example.org"] = "x"
+    m = Message()
+    a._pack(m)
+    first = SFTPAttributes._from_msg(Message(m.asbytes()))
+    c = SFTPAttributes()
+    c.st_size = 9
+    m2 = Message()
+    c._pack(m2)
+    second = SFTPAttributes._from_msg(Message(m2.asbytes()))
+    if len(first.attr) != 1:
+        bad.append("first decode: %r" % (first.attr,))
+    if len(second.attr) != 0 or len(SFTPAttributes().attr) != 0:
+        bad.append("an object decoded / created after one with extended attributes shows %r" % (second.attr,))
+    return {"violates": bool(bad), "detail": bad}
